@@ -4,7 +4,7 @@ From Coq Require Import String List NArith ZArith Bool.
 From J5V.lib Require Import Outcome Json JsonPrint Base64 Civil.
 From J5V.model Require Import CodecTypes CodecEnc CodecEncSpec CodecEnvDerive.
 From J5V.gen Require ReadmeGen EncSwitchGen.
-From J5V.proofs Require Import CodecEncProofs CodecEncLex CodecEncEmbed CodecEncPresence CodecEncSpecDet CodecEncInner CodecEnvDeriveProofs.
+From J5V.proofs Require Import CodecEncProofs CodecEncLex CodecEncEmbed CodecEncPresence CodecEncSpecDet CodecEncInner CodecEnvDeriveProofs CodecEncFuel.
 Import ListNotations.
 Local Open Scope N_scope.
 
@@ -239,6 +239,21 @@ Theorem C08_any_value_is_payload_wire_format : forall fmt_float,
       strict_parse t = Some J /\ wire_format fmt_float e root pm J.
 Proof. exact inner_n_wire. Qed.
 Print Assumptions C08_any_value_is_payload_wire_format.
+
+(* The model's fuel never shows: for EVERY message and every environment with flat oneof schemas the
+   encoder ends in Ok, Err (a Go error) or Panic (a Go panic), never in OutOfFuel — so the statements
+   above about "every successful encoding" range over all runs of the modelled code, also for the
+   widened domain (NaN, out-of-range dates, invalid UTF-8, ill-typed values). *)
+Theorem C08_encoder_never_out_of_fuel : forall fmt_float any_inner env,
+  oneofs_flat env -> (forall tn pb, any_inner tn pb <> OutOfFuel) ->
+  forall root m, encode fmt_float any_inner env root m <> OutOfFuel.
+Proof. exact encode_never_out_of_fuel. Qed.
+Print Assumptions C08_encoder_never_out_of_fuel.
+Theorem C08_inner_encoder_never_out_of_fuel : forall fmt_float reg unmarshal,
+  (forall tn e root, reg tn = Some (e, root) -> oneofs_flat e) ->
+  forall n tn pb, inner_n fmt_float reg unmarshal n tn pb <> OutOfFuel.
+Proof. exact inner_nf. Qed.
+Print Assumptions C08_inner_encoder_never_out_of_fuel.
 
 (* The specification leaves no freedom inside the documented domain: for a value whose scalars are
    all in-domain and whose Any values store JSON text, at most one tree satisfies the wire format —
